@@ -154,6 +154,12 @@ func clipb(b []byte) string {
 func c04Valid(c *run.C) {
 	r := c.R
 	text, want, _ := gen.JSONText(r, gen.JSONTextOpts{MaxDepth: 6, MaxNodes: 50, Compact: r.P(1, 4)})
+	if r.P(1, 8) {
+		// nesting past the parser's pre-allocated stacks, with siblings
+		// still to come at every open level
+		text, want = gen.JSONSpine(r, text, want, gen.SpineDepth(r))
+		c.Observe("spine_documents_depth_20_to_100", 1)
+	}
 	doc := []byte(text)
 	c.Begin(refCase{Codec: "json", Doc: hexs(doc), Text: clipb(doc)})
 	// the generator's expectation and the reference decoder must agree,
@@ -366,6 +372,10 @@ func c04Corpus(c *run.C) {
 func c05Valid(c *run.C) {
 	r := c.R
 	doc, want, _, _ := gen.CBORItem(r, gen.CBOROpts{MaxDepth: 6, MaxNodes: 50, NonMinimal: true})
+	if r.P(1, 8) {
+		doc, want = gen.CBORSpine(r, doc, want, gen.SpineDepth(r))
+		c.Observe("spine_documents_depth_20_to_100", 1)
+	}
 	c.Begin(refCase{Codec: "cborl", Doc: hexs(doc)})
 	rr := ref.DecodeCBOR(doc)
 	if rr.Status != ref.OK || len(rr.Values) != 1 || val.Equal(want, rr.Values[0], val.NumExact) != "" || rr.Unsupported() {
@@ -559,6 +569,10 @@ func c05Unsupported(c *run.C) {
 func c06Valid(c *run.C) {
 	r := c.R
 	doc, want, _ := gen.UBJSONValue(r, gen.UBJSONOpts{MaxDepth: 6, MaxNodes: 50, Noops: r.P(1, 3)})
+	if r.P(1, 8) {
+		doc, want = gen.UBJSONSpine(r, doc, want, gen.SpineDepth(r))
+		c.Observe("spine_documents_depth_20_to_100", 1)
+	}
 	c.Begin(refCase{Codec: "ubjson", Doc: hexs(doc)})
 	rr := ref.DecodeUBJSON(doc)
 	if rr.Status != ref.OK || len(rr.Values) != 1 || val.Equal(want, rr.Values[0], val.NumExact) != "" {
